@@ -35,6 +35,11 @@ pub enum Op {
 	/// A's default account pays B with minimum_confirmations = 0 and use_all: spends whatever it
 	/// holds, including still-unconfirmed received or change outputs
 	SendA0BZeroConf,
+	/// acct1 (named as source) reserves outputs for a send that is never posted
+	PendingA1,
+	/// the default account reserves outputs for a send and cancels it before it is ever posted
+	/// (allowed by the premise: only cancelling after broadcast is excluded)
+	PendingCancelA0,
 	SwitchA,
 	RefreshA,
 	RefreshB,
@@ -310,6 +315,26 @@ impl Model for M {
 				})();
 				out.label = match r {
 					Ok(l) => l,
+					Err(e) => err_label(&e),
+				};
+				w.w("A").set_account(&active).unwrap();
+				touched_a = Some("m/0/0");
+			}
+			Op::PendingA1 => {
+				let a = w.w("A");
+				let mut args = default_args(6 * G);
+				args.src_acct_name = Some("acct1".to_owned());
+				out.label = match a.init_send(args).and_then(|s| a.lock(&s)) {
+					Ok(()) => "ok".into(),
+					Err(e) => err_label(&e),
+				};
+				touched_a = Some("m/1/0");
+			}
+			Op::PendingCancelA0 => {
+				w.w("A").set_account("default").unwrap();
+				let a = w.w("A");
+				out.label = match a.init_send(default_args(7 * G)).and_then(|s| a.lock(&s).map(|_| s)).and_then(|s| a.cancel(None, Some(s.id))) {
+					Ok(()) => "ok".into(),
 					Err(e) => err_label(&e),
 				};
 				w.w("A").set_account(&active).unwrap();
@@ -609,6 +634,10 @@ pub fn run(_args: &[String]) -> i32 {
 				dpaths.push(vec![o.clone(), Op::SendA0BZeroConf, Op::MineM, Op::MineM, Op::RefreshA, Op::RefreshB]);
 				dpaths.push(vec![o.clone(), Op::SendA0BZeroConf, Op::RefreshA, Op::MineM, Op::RefreshA]);
 			}
+			// a pending transaction in one account, a reserve-and-cancel in the other (per-account log ids collide)
+			dpaths.push(vec![Op::PendingA1, Op::PendingCancelA0]);
+			dpaths.push(vec![Op::PendingA1, Op::PendingCancelA0, Op::SwitchA, Op::RefreshA]);
+			dpaths.push(vec![Op::PendingA1, Op::PendingCancelA0, Op::MineM, Op::RefreshA]);
 			let res = par_map(&dpaths, workers(), |i, p| run_path(&m, &format!("{}/c04-{}-d{}", root, tag, i), p));
 			for (p, r) in dpaths.iter().zip(res.into_iter()) {
 				transitions += p.len();
